@@ -19,6 +19,7 @@ func init() {
 		spaces[n+".grammar"] = func(t string) mck.Space { return flowGrammar(p, t) }
 		spaces[n+".mutate"] = func(t string) mck.Space { return mutateSpace(p, flowSeeds(p), t) }
 		spaces[n+".history"] = func(t string) mck.Space { return historySpace(p, t) }
+		spaces[n+".dense"] = func(t string) mck.Space { return flowDense(p, t) }
 	}
 }
 
@@ -466,5 +467,73 @@ func historySpace(p int, tier string) mck.Space {
 			c.Transitions(1)
 		}
 		c.Depth(uint64(len(pre) + 1))
+	}}
+}
+
+// flowDense: LARGE datagrams made of the smallest legal units - thousands of 4..8-octet sets of every kind,
+// and tens of thousands of 1-octet records - up to the UDP maximum. Cost and memory must stay proportional to
+// the octets received; whatever grows with the NUMBER of sets, errors or records faster than that shows here.
+func flowDense(p int, tier string) mck.Space {
+	ns := []int{64, 1000, 4000, 16000}
+	tplSet := uint16(2)
+	optSet := uint16(3)
+	reserved := uint16(5)
+	if p == pV9 {
+		tplSet, optSet, reserved = 0, 1, 7
+	}
+	units := []struct {
+		name string
+		ids  []uint16
+		body []byte
+	}{
+		{"unknown-template sets of 4 octets", []uint16{999}, nil},
+		{"unknown-template sets of 8 octets", []uint16{999}, []byte{1, 2, 3, 4}},
+		{"reserved-id sets of 4 octets", []uint16{reserved}, nil},
+		{"empty template sets", []uint16{tplSet}, nil},
+		{"empty options-template sets", []uint16{optSet}, nil},
+		{"alternating unknown / reserved / empty template sets", []uint16{999, reserved, tplSet, 65535}, nil},
+		{"unknown-template sets with different ids", nil, nil},
+		{"template sets announcing a one-field template each", []uint16{tplSet}, []byte{0, 0, 0, 1, 0, 4, 0, 1}}, // id patched per set
+	}
+	dims := mck.Radix{uint64(len(units)), uint64(len(ns)), 2}
+	return dgSpace{n: dims.Size() + uint64(len(ns)), gen: func(idx uint64) *dgram {
+		if idx >= dims.Size() { // N one-octet records of a template announced before
+			n := ns[idx-dims.Size()] * 4
+			if n > 64000 {
+				n = 64000
+			}
+			tw := &ref.W{}
+			flowHeader(p, protoVersion(p), tw)
+			tw.U16(tplSet)
+			tw.U16(12)
+			tw.U16(300)
+			tw.U16(1)
+			tw.U16(4) // protocolIdentifier, 1 octet
+			tw.U16(1)
+			w := &ref.W{}
+			flowHeader(p, protoVersion(p), w)
+			w.U16(300)
+			w.U16(uint16(4 + n))
+			w.Bytes(fillBytes(n, 0))
+			return &dgram{proto: p, addr: addrs[0], pre: [][]byte{tw.B}, wire: w.B, class: fmt.Sprintf("%s:dense:%d one-octet records", protoNames[p], n), sig: protoNames[p] + ":dense:records"}
+		}
+		d := dims.Digits(idx)
+		u, n := units[d[0]], ns[d[1]]
+		w := &ref.W{}
+		flowHeader(p, protoVersion(p), w)
+		for i := 0; i < n && len(w.B)+4+len(u.body) <= 65000; i++ {
+			id := uint16(256 + i%60000)
+			if u.ids != nil {
+				id = u.ids[i%len(u.ids)]
+			}
+			w.U16(id)
+			w.U16(uint16(4 + len(u.body)))
+			b := append([]byte{}, u.body...)
+			if len(b) == 8 { // template record: give every set its own template id
+				b[0], b[1] = byte((256+i)>>8), byte(256+i)
+			}
+			w.Bytes(b)
+		}
+		return &dgram{proto: p, addr: addrs[d[2]*2], wire: w.B, class: fmt.Sprintf("%s:dense:%d x %s", protoNames[p], n, u.name), sig: protoNames[p] + ":dense:sets"}
 	}}
 }
